@@ -398,7 +398,9 @@ var iterKinds = []ikind{
 	}},
 	{"iterator.ToList+FromList", func(x *mc.X, pos int, red bool) istage {
 		return istage{label: "FromList(ToList(src))", ref: cp,
-			build: func(e *env, cb *int, in fp.Iterator[int]) fp.Iterator[int] { return iterator.FromList(iterator.ToList(in)) }}
+			build: func(e *env, cb *int, in fp.Iterator[int]) fp.Iterator[int] {
+				return iterator.FromList(iterator.ToList(in))
+			}}
 	}},
 	{"list.Collect+iterator.List", func(x *mc.X, pos int, red bool) istage {
 		return istage{label: "iterator.List(list.Collect(src))", ref: cp,
